@@ -31,10 +31,15 @@ SLICES_QUICK = [
     ("size limits", {"Ops": '{"text"}', "CtlOps": '{"ping"}', "CtlLens": "{0}", "Lens": "{1, 70000}", "VLens": "{1}",
                      "Viols": '{"msg-over-max", "frame-over-max"}', "MaxMsgs": 1, "MaxFrags": 3, "MaxCtl": 1, "MaxFrames": 4}, 2, 2),
 ]
+# a maximum below the 7-bit length class: a frame can be too long without an extended length field
+SMALLMAX = ("maximum of 100 bytes", {"Max": 100, "Ops": '{"text"}', "CtlOps": '{"ping"}', "CtlLens": "{0}", "Lens": "{1, 100}", "VLens": "{1}",
+                                    "Viols": '{"msg-over-max", "frame-over-max"}', "MaxMsgs": 1, "MaxFrags": 2, "MaxCtl": 1, "MaxFrames": 3}, 1, 1)
+SLICES_QUICK.append(SMALLMAX)
 SLICES_THOROUGH = [
     ("all classes, text/ping, <= 4 frames", dict(SLICES_QUICK[0][1], MaxFrags=3), 2, 4),
     ("binary/pong, 16/64-bit lengths, <= 4 frames", dict(SLICES_QUICK[1][1], MaxFrames=4), 2, 4),
     ("size limits", SLICES_QUICK[2][1], 1, 2),
+    SMALLMAX,
     ("both types, both controls, framing classes", {"Ops": '{"text", "binary"}', "CtlOps": '{"ping", "pong"}', "CtlLens": "{0, 125}", "Lens": "{0, 126}", "VLens": "{0, 125}",
                                                   "Viols": '{"rsv", "masked", "resop", "fragctl", "bigctl"}', "MaxMsgs": 2, "MaxFrags": 2, "MaxCtl": 1, "MaxFrames": 3}, 2, 4),
     ("both types, fragmentation classes", {"Ops": '{"text", "binary"}', "CtlOps": '{"ping"}', "CtlLens": "{1}", "Lens": "{0, 126}", "VLens": "{0, 1, 126}",
